@@ -38,7 +38,7 @@ def instances(ctx):
     # (bucket, drop, maxlen, depth, multi, writes)
     q = [(2, 0, 6, 7, 3, False), (3, 0, 7, 7, 3, False), (2, 0, 4, 4, 2, True), (3, 0, 4, 4, 2, True),
          (2, 4, 9, 9, 0, False), (3, 6, 8, 7, 2, False)]
-    t = [(2, 0, 8, 9, 3, False), (3, 0, 9, 9, 3, False), (4, 0, 9, 9, 4, False), (2, 0, 5, 5, 2, True),
+    t = [(2, 0, 8, 8, 3, False), (3, 0, 8, 8, 3, False), (4, 0, 9, 8, 4, False), (2, 0, 5, 5, 2, True),
          (3, 0, 5, 5, 2, True), (4, 0, 5, 5, 2, True), (2, 4, 12, 12, 0, False), (3, 6, 14, 14, 0, False),
          (2, 4, 8, 8, 2, False), (3, 6, 9, 8, 3, False), (4, 6, 9, 8, 3, False)]
     return ctx.pick(q, t)
@@ -173,6 +173,24 @@ def run(ctx):
                         "slice steps are not used (the class ignores them on reads)"]
     traces, samples, classes = [], [], set()
     tid = 0
+    stats = {"validated": 0, "events": 0, "bad": 0}
+
+    def flush():
+        """TLC decides the accumulated traces (batched so that memory stays bounded)"""
+        if not traces:
+            return
+        verdicts, results = tlc.validate_traces("TraceDynArray", "TraceDynArray.cfg", traces, ctx.scratch, parts=12)
+        byid = {t["id"]: t for t in traces}
+        for i, (l, v) in sorted(verdicts.items()):
+            if v != "ok":
+                stats["bad"] += 1
+                t = byid[i]
+                ctx.violation(sig_of(v), "trace %d (%s, bucket=%d drop=%d) rejected at event %d: %s" % (
+                    i, t["hdr"]["src"], t["hdr"]["bucket"], t["hdr"]["drop"], l, v),
+                              {"hdr": t["hdr"], "ev": t["ev"][:l]})
+        stats["validated"] += len(traces)
+        stats["events"] += sum(r.generated for r in results)
+        del traces[:]
     # ---------------- M + edge export
     insts = instances(ctx)
     # one single-worker run per instance: model checking (all invariants) + export of every transition with its witness
@@ -220,7 +238,11 @@ def run(ctx):
             if len(samples) < 3 and len(hist) >= 4:
                 samples.append({"kind": "R: TLC witness replayed", "bucket": bucket, "drop": drop,
                                 "ops": [e for e in evs[:-1]], "expected_list": rec["post"]})
-    n_r = len(traces)
+            if len(traces) >= 20000:
+                flush()
+        r.raw = ""
+        r.prints = []
+    n_r = tid
     ctx.log("R: %d transitions replayed, %d (idx,cap,op) classes" % (n_r, len(classes)))
     # ---------------- T: long random sequences
     n_t = ctx.pick(60, 1500)
@@ -258,6 +280,8 @@ def run(ctx):
                 break
             if rng.random() < 0.08:
                 evs.append(read_table(arr, rng, full=False, nslices=25))
+            if len(traces) >= 20000:
+                pass
             if len(arr) > 60 and not drop:
                 arr_flush = {"k": "flush"}
                 evs.append(apply_op(arr, arr_flush))
@@ -268,20 +292,11 @@ def run(ctx):
         if s == 0:
             samples.append({"kind": "T: random sequence (first 12 events)", "bucket": bucket, "drop": drop, "ops": evs[:12]})
     # ---------------- TLC decides
-    verdicts, results = tlc.validate_traces("TraceDynArray", "TraceDynArray.cfg", traces, ctx.scratch, parts=12)
-    bad = 0
-    byid = {t["id"]: t for t in traces}
-    for i, (l, v) in sorted(verdicts.items()):
-        if v != "ok":
-            bad += 1
-            t = byid[i]
-            ctx.violation(sig_of(v), "trace %d (%s, bucket=%d drop=%d) rejected at event %d: %s" % (
-                i, t["hdr"]["src"], t["hdr"]["bucket"], t["hdr"]["drop"], l, v),
-                          {"hdr": t["hdr"], "ev": t["ev"][:l]})
-    ctx.evaluations = len(traces)
+    flush()
+    ctx.evaluations = stats["validated"]
     ctx.coverage.update({
-        "traces_validated_against_impl": len(traces), "transitions_replayed": n_r, "random_sequences": n_t,
-        "trace_events_checked_by_tlc": sum(r.generated for r in results), "rejected_traces": bad,
+        "traces_validated_against_impl": stats["validated"], "transitions_replayed": n_r, "random_sequences": n_t,
+        "trace_events_checked_by_tlc": stats["events"], "rejected_traces": stats["bad"],
         "impl_state_classes_covered": len(classes), "samples": samples,
         "rule": "R: one trace per transition of DynArray.tla (shortest witness); non-trivial = witness contains a delete/"
                 "bulk append/assignment/flush or a drop-oldest limit; distinct by (bucket, drop, op, idx, cap, depth). "
